@@ -10,6 +10,7 @@ def rt(name, bound, tier="quick", timeout=300, stubs=None, funcs=None, **kw):
 
 
 PROP = {
+    "level_text": "Encode/decode round trip for every operand of every operation class with an arbitrary suffix (which gives sequences of any length by induction) and decoder totality on the numeric opcode classes are decided. VarRemover ('positions unchanged') is NOT decided: three attempts exceeded memory/time.",
     "title": "DVI encoding round-trips; decoder is total (variable removal NOT decided)",
     "explanation": (
         "Round trip is decided per opcode class with every operand fully symbolic and an arbitrary suffix after the "
